@@ -214,6 +214,7 @@ func (h *harness) rendezvous(c *conn, server bool) {
 
 type harness struct {
 	s                       *simkit.Sim
+	errorEP                 *endpoint // the source endpoint whose transport was made to fail last
 	plan                    *simkit.Plan
 	mu                      sync.Mutex
 	incoming                chan *conn
@@ -382,6 +383,9 @@ func execRelay(t *testing.T, plan *simkit.Plan) *simkit.Result {
 					if ep != nil {
 						select {
 						case ep.transportErrors <- errors.New("simulated transport failure"):
+							h.mu.Lock()
+							h.errorEP = ep
+							h.mu.Unlock()
 							s.Count("fault.transport_error", 1)
 							s.Logf("admin", "the source transport fails")
 						default:
@@ -473,7 +477,25 @@ func execRelay(t *testing.T, plan *simkit.Plan) *simkit.Result {
 			h.mu.Lock()
 			when := h.pendingClosedCheck
 			h.pendingClosedCheck = ""
+			errEP := h.errorEP
 			h.mu.Unlock()
+			if when == "after transport-error" && errEP != nil {
+				// The failure is handed to the controller through a channel: until
+				// its loop has taken it - it may stand at one of the simulator's own
+				// gates, or serve another ready event first - nothing is overdue.
+				ctlParked := false
+				for _, g := range s.Parked() {
+					ctlParked = ctlParked || strings.HasPrefix(g, "ctl ")
+				}
+				if len(errEP.transportErrors) > 0 || ctlParked {
+					h.mu.Lock()
+					if h.pendingClosedCheck == "" {
+						h.pendingClosedCheck = when
+					}
+					h.mu.Unlock()
+					return
+				}
+			}
 			if when != "" {
 				h.checkAllClosed(when)
 			}
